@@ -2,7 +2,7 @@
 From Coq Require Import List NArith Bool Arith Lia ZifyBool ZifyN ZifyNat.
 From Dae.gen Require Import C06_Extracted.
 From Dae Require Import C06_Spec C06_Model C06_Statements.
-From Dae Require Export C06_ProofsCarried.
+From Dae Require Export C06_ProofsCarried C06_ProofsOob C06_ProofsTls C06_ProofsChunk C06_ProofsHttp C06_ProofsQuic.
 Import ListNotations.
 Open Scope N_scope.
 
@@ -85,3 +85,20 @@ Proof.
   - destruct (norm_outcome r); cbn; auto.
   - destruct (extract_sni_linear cr); cbn; auto.
 Qed.
+
+(* ------------------------------------------------------------------ glue *)
+Lemma C06_chunking_invariant_proof : C06_chunking_invariant_stmt.
+Proof. exact (C06_chunking_from_stream C06_tls_stream_roundtrip_proof). Qed.
+
+Lemma C06_quic_roundtrip_proof : C06_quic_roundtrip_stmt.
+Proof.
+  unfold C06_quic_roundtrip_stmt. intros h packets Hwf Hf Hc.
+  rewrite (C06_crypto_reassembly_proof (enc_handshake h) packets).
+  - apply C06_quic_single_block. exact Hwf.
+  - unfold enc_handshake. discriminate.
+  - exact Hf.
+  - exact Hc.
+Qed.
+
+Lemma C06_frames_roundtrip_proof : C06_frames_roundtrip_stmt.
+Proof. exact C06_reassemble_roundtrip. Qed.
